@@ -60,6 +60,8 @@ package nfsv4
 //@   at call Test#1 assert in-critical-section: held(of.locksLock) == 1
 //@   at call Test#1 assert converted-range: lock.Start == start && lock.End == end && lock.Owner == lockOwner && lock.Type == byteRangeLockType
 //@   at call Test#1 assert locking-type: lock.Type != virtual.ByteRangeLockTypeUnlocked
+//@   ensures refusals-are-never-a-success-reply: r1 != nil ==> !typeis(r1, *nfsv4.Lock4res_NFS4_OK)
+//@   ensures nothing-counted-when-refused: r1 != nil ==> r0 == 0
 //@ func (*OpenedFile).Unlock
 //@   props C20
 //@   at call Set#1 assert in-critical-section: held(of.locksLock) == 1
@@ -85,6 +87,9 @@ package nfsv4
 //@             typeis(args.Locker, *nfsv4.Locker4_TRUE) ==> cis.lockOwnersByOwner[lockOwnerKey] == los
 //@   at call OpenedFile).Lock#1 assert owner-of-that-state: arg1 == &los.owner
 //@   at call OpenedFile).Lock#1 assert in-critical-section: held(cis.lock) == 1
+//@   ensures count-follows-the-lock-table: typeis(r0, *nfsv4.Lock4res_NFS4_OK) && !isnew(lofs) && fits(old(lofs.lockCount), lockCountDelta) ==>
+//@             lofs.lockCount == old(lofs.lockCount) + lockCountDelta
+//@   ensures count-of-a-new-state-is-what-the-table-reported: typeis(r0, *nfsv4.Lock4res_NFS4_OK) && isnew(lofs) ==> lofs.lockCount == lockCountDelta
 
 // A lock-owner's state on a file may only be discarded once it holds no
 // locks there (lockCount gates FREE_STATEID; RFC 8881 18.38: LOCKS_HELD).
@@ -96,6 +101,20 @@ package nfsv4
 //@ func (*sequenceState).opFreeStateID
 //@   props C20
 //@   at call remove#1 assume lofs.lockCount >= 0 -- representation invariant: lock counts are never negative (LOCKU panics with "Negative lock count" before storing one)
+
+// The count that gates FREE_STATEID, CLOSE and RELEASE_LOCKOWNER follows the
+// file's lock table exactly: every successful LOCK and LOCKU adds the delta the
+// table reported, whatever its sign (unlocking the middle of a range adds one).
+//@ pred fits(a int, b int) := a + b <= MaxInt64 && a + b >= -MaxInt64
+//@ func (*sequenceState).opLockU
+//@   props C20
+//@   ensures count-follows-the-lock-table: typeis(r0, *nfsv4.Locku4res_NFS4_OK) && fits(old(lofs.lockCount), lockCountDelta) ==> lofs.lockCount == old(lofs.lockCount) + lockCountDelta
+//@ func (*compoundState).txLocku
+//@   props C20
+//@   ensures count-follows-the-lock-table: typeis(r0, *nfsv4.Locku4res_NFS4_OK) && fits(old(lofs.lockCount), lockCountDelta) ==> lofs.lockCount == old(lofs.lockCount) + lockCountDelta
+//@ func (*compoundState).txLockCommon
+//@   props C20
+//@   ensures count-follows-the-lock-table: typeis(r0, *nfsv4.Lock4res_NFS4_OK) && fits(old(lofs.lockCount), lockCount) ==> lofs.lockCount == old(lofs.lockCount) + lockCount
 
 // ---------------------------------------------------------------------------
 // Reference and share counting (C18)
